@@ -1543,3 +1543,19 @@ mod tests {
         assert!(res.is_ok() || res.is_err());
     }
 }
+
+#[cfg(jomini_verif)]
+pub mod verif_hooks {
+    //! Verification hooks (compiled only with `--cfg jomini_verif`): observe the capacity of the
+    //! token tape's vector and create a tape whose vector has a chosen capacity.
+    #![allow(missing_docs)]
+    use super::*;
+    pub fn tape_with_capacity<'a>(n: usize) -> BinaryTape<'a> {
+        BinaryTape {
+            token_tape: Vec::with_capacity(n),
+        }
+    }
+    pub fn tape_capacity(tape: &BinaryTape) -> usize {
+        tape.token_tape.capacity()
+    }
+}
